@@ -284,7 +284,7 @@ func (g *sessGen) fragment(withCD bool) []*Req {
 	dir := strings.TrimSuffix(g.pick(g.dirs), "/")
 	newName := []string{"UP", "new", "n1", "n2"}[r.Intn(4)]
 	badCreates := []string{dir + "/nodir/x", "/***DVD***/" + strings.TrimPrefix(dir, "/") + "/x", g.pick(g.files) + "/x", "/" + strings.Repeat("L", 300), dir}
-	switch r.Intn(9) {
+	switch r.Intn(10) {
 	case 0: // upload in several writes
 		out := []*Req{{Op: opCreateFile, Path: dir + "/" + newName}}
 		for k := 0; k < 1+r.Intn(3); k++ {
@@ -315,6 +315,13 @@ func (g *sessGen) fragment(withCD bool) []*Req {
 		nd := dir + "/" + newName
 		return []*Req{{Op: opMkdir, Path: nd}, {Op: opCreateFile, Path: nd + "/f"}, payload(), {Op: opOpenDir, Path: nd}, {Op: opReadDir}, {Op: opRmdir, Path: nd},
 			{Op: opDeleteFile, Path: nd + "/f"}, {Op: opRmdir, Path: nd}, {Op: opStatFile, Path: nd}, {Op: opGetDirSize, Path: dir}}
+	case 8: // removing the served root itself, under every spelling, then looking at it
+		spell := []string{"/", "", ".", "/.", "/..", "//", dir + "/..", "/./", "/../.."}
+		out := []*Req{}
+		for k := 0; k < 2+r.Intn(3); k++ {
+			out = append(out, &Req{Op: []int{opDeleteFile, opRmdir}[r.Intn(2)], Path: spell[r.Intn(len(spell))]})
+		}
+		return append(out, &Req{Op: opStatFile, Path: "/"}, &Req{Op: opOpenDir, Path: "/"}, &Req{Op: opReadDir})
 	case 7: // the create-on-a-directory close idiom, then a write
 		return []*Req{{Op: opCreateFile, Path: dir + "/" + newName}, payload(), {Op: opCreateFile, Path: g.pick(g.dirs)}, payload()}
 	default: // open files of different kinds one after another, byte reads and sector reads interleaved
@@ -456,6 +463,9 @@ func maskTimes(op int, out []byte) {
 func runSession(top string, allow bool, chunks [][]byte, ops []int, bufSize int64, after func(i int, so stepObs, ls *LibServer)) (*sessResult, error) {
 	ls := NewLibServer(filepath.Join(top, "R"), allow, time.Unix(tmutUnix, 0), 0, bufSize)
 	defer ls.Stop()
+	if sessPrep != nil {
+		sessPrep(ls)
+	}
 	c := newScriptConn(&net.TCPAddr{IP: net.IPv4(127, 0, 0, 1), Port: 50000})
 	ls.Connect(c)
 	// wait for the server to reach its first Read
@@ -940,16 +950,34 @@ func runSess(env *Env) error {
 		withCD := i%10 == 3
 		top := filepath.Join(base, fmt.Sprintf("w%da", i))
 		w := genWorld(env, withCD)
+		emptyRoot := i%16 == 9 // an empty served root, uploads allowed: the only state in which removing "/" could succeed
+		if emptyRoot {
+			w.Child("R").Kids = nil
+		}
 		if err := w.Materialise(top); err != nil {
 			return err
 		}
-		allow := env.Rnd.Intn(2) == 0
-		g := newSessGen(env, w.Child("R"))
-		nreq := 1 + env.Rnd.Intn(40)
-		if env.Rnd.Intn(10) == 0 {
-			nreq = 100 + env.Rnd.Intn(100)
+		allow := env.Rnd.Intn(2) == 0 || emptyRoot
+		var reqs []*Req
+		if emptyRoot {
+			spell := []string{"/", "", ".", "/.", "/..", "//", "/./", "/../..", "/x/.."}
+			for k := 0; k < 2+env.Rnd.Intn(3); k++ {
+				reqs = append(reqs, &Req{Op: []int{opDeleteFile, opRmdir}[env.Rnd.Intn(2)], Path: spell[env.Rnd.Intn(len(spell))]})
+			}
+			reqs = append(reqs, &Req{Op: opStatFile, Path: "/"}, &Req{Op: opOpenDir, Path: "/"}, &Req{Op: opReadDir},
+				&Req{Op: opMkdir, Path: "/n"}, &Req{Op: opStatFile, Path: "/n"}, &Req{Op: opRmdir, Path: "/n"}, &Req{Op: opRmdir, Path: "/"}, &Req{Op: opStatFile, Path: "/"})
+			for _, q := range reqs {
+				q.Junk = make([]byte, 14)
+			}
+			env.Count("variant", "empty-root")
+		} else {
+			g := newSessGen(env, w.Child("R"))
+			nreq := 1 + env.Rnd.Intn(40)
+			if env.Rnd.Intn(10) == 0 {
+				nreq = 100 + env.Rnd.Intn(100)
+			}
+			reqs = g.gen(nreq, withCD)
 		}
-		reqs := g.gen(nreq, withCD)
 		mode := "steps"
 		var chunks [][]byte
 		var ops []int
@@ -999,6 +1027,9 @@ func runSess(env *Env) error {
 		}
 		if strings.Join(snapshotLines(before, rHex, false), "\n") != strings.Join(snapshotLines(res.dumpLines, rHex, false), "\n") {
 			env.OracleFail(id, "[C01-outside] the tree outside the served root changed during the session")
+		}
+		if st, err := os.Stat(filepath.Join(top, "R")); err != nil || !st.IsDir() {
+			env.OracleFail(id, fmt.Sprintf("[C05-root] the served root directory itself no longer exists after the session: %s", trim(describeReqs(reqs), 300)))
 		}
 		if !allow && strings.Join(before, "\n") != strings.Join(res.dumpLines, "\n") {
 			env.OracleFail(id, "[C05-readonly] writing is disabled but the served tree changed")
